@@ -59,13 +59,14 @@ const WARMUPS: usize = 3;
 // narrow signatures (rule id + shape)
 const SIG_SHORT: &str = "C12.short/early-return";
 const SIG_NOT_FIRED: &str = "C12.short/timer-limit-not-fired";
+const SIG_WAKEUP_IGNORED: &str = "C12.long/wakeup-did-not-end-dispatch";
 const SIG_TIMER_EARLY: &str = "C12.short/timer-fired-before-deadline";
 const SIG_LONG: &str = "C12.long/oversleep";
 const SIG_LONG_HELPER: &str = "C12.long/helper-event-not-dispatched";
 const SIG_ZERO: &str = "C12.zero/blocked";
 const SIG_NONE_RESCUED: &str = "C12.none/rescued";
 const SIG_NONE_EARLY: &str = "C12.none/returned-before-wakeup";
-const ALL_SIGS: [&str; 8] = [SIG_TIMER_EARLY, SIG_SHORT, SIG_NOT_FIRED, SIG_LONG, SIG_LONG_HELPER, SIG_ZERO, SIG_NONE_RESCUED, SIG_NONE_EARLY];
+const ALL_SIGS: [&str; 9] = [SIG_WAKEUP_IGNORED, SIG_TIMER_EARLY, SIG_SHORT, SIG_NOT_FIRED, SIG_LONG, SIG_LONG_HELPER, SIG_ZERO, SIG_NONE_RESCUED, SIG_NONE_EARLY];
 
 // ------------------------------------------------------------------------------------------------
 // the case
@@ -446,6 +447,8 @@ struct AsstOut {
     /// (about to act, action returned)
     acted: Option<(Instant, Instant)>,
     rescued: Option<Instant>,
+    /// LoopSignal::wakeup() of the watchdog did not end the dispatch within 300 ms: a ping event had to
+    rescued_by_event: bool,
 }
 
 struct Cancel {
@@ -477,7 +480,7 @@ impl Cancel {
 /// The assistant thread: performs the helper's action after its delay (recording the instant
 /// right before and right after), then turns into the watchdog that ends a dispatch which does
 /// not return (LoopSignal::wakeup) and flags the case. Cancelled as soon as the dispatch returned.
-fn assistant(cancel: Arc<Cancel>, action: Option<(Action, Duration)>, rescue: LoopSignal, rescue_after: Duration) -> AsstOut {
+fn assistant(cancel: Arc<Cancel>, action: Option<(Action, Duration)>, rescue: LoopSignal, rescue_after: Duration, rescue_ping: calloop::ping::Ping) -> AsstOut {
     let start = Instant::now();
     let mut out = AsstOut::default();
     if let Some((action, delay)) = action {
@@ -493,6 +496,11 @@ fn assistant(cancel: Arc<Cancel>, action: Option<(Action, Duration)>, rescue: Lo
     }
     out.rescued = Some(Instant::now());
     rescue.wakeup();
+    // if even the wake-up does not end the dispatch, end it with a real event so that the case terminates
+    if !cancel.sleep_until(Instant::now() + Duration::from_millis(300)) {
+        out.rescued_by_event = true;
+        rescue_ping.ping();
+    }
     out
 }
 
@@ -505,6 +513,7 @@ struct Obs {
     trace: Vec<(Src, Instant)>,
     acted: Option<(Instant, Instant)>,
     rescued: Option<Instant>,
+    rescued_by_event: bool,
     /// callbacks seen in the last warm-up dispatch (should be 0: the loop is quiescent)
     last_warmup_callbacks: usize,
     /// follow-up dispatch: (t_before, t_after, trace)
@@ -667,12 +676,17 @@ fn run_once(c: &Case) -> Obs {
     };
     let cancel = Arc::new(Cancel { flag: Mutex::new(false), cv: Condvar::new() });
     let rescue = el.get_signal();
+    // last-resort rescue source (never pinged unless the watchdog's wake-up is ignored)
+    let (rescue_ping, rescue_src) = calloop::ping::make_ping().expect("make_ping");
+    h.insert_source(rescue_src, |_, _, _: &mut Trace| {}).expect("insert rescue ping");
+    // one handle stays with the case until the end: the assistant's handle going away must not be a close event
+    keep.push(Box::new(rescue_ping.clone()));
     let asst = {
         let cancel = cancel.clone();
         std::thread::Builder::new()
             .name("c12-assistant".into())
             .stack_size(64 * 1024)
-            .spawn(move || assistant(cancel, action, rescue, rescue_after))
+            .spawn(move || assistant(cancel, action, rescue, rescue_after, rescue_ping))
             .expect("spawn assistant")
     };
 
@@ -766,6 +780,7 @@ fn run_once(c: &Case) -> Obs {
         trace: trace.ev,
         acted: out.acted,
         rescued: out.rescued,
+        rescued_by_event: out.rescued_by_event,
         last_warmup_callbacks,
         follow,
     }
@@ -940,6 +955,18 @@ fn judge(c: &Case, o: &Obs) -> Judgement {
             o.trace.iter().map(|(s, t)| (*s, ms(t.saturating_duration_since(o.t_before)))).collect::<Vec<_>>(),
         )
     };
+
+    // ---- the watchdog's LoopSignal::wakeup() must end a dispatch that is blocked (exact: 300 ms without effect) ----
+    if o.rescued_by_event {
+        j.classes.push("rescue_wakeup_ignored");
+        j.soft.push(
+            Violation::new(
+                "C12.long",
+                format!("the watchdog's wakeup() did not end the dispatch within 300 ms; a ping event had to end it after {:.0} ms. {}", ms(elapsed), describe()),
+            )
+            .with_sig(SIG_WAKEUP_IGNORED),
+        );
+    }
 
     // ---- a timer never fires before its deadline (whatever ended the wait): exact ----------------
     for (src, t) in o.trace.iter().chain(o.follow.iter().flat_map(|f| f.2.iter())) {
